@@ -154,15 +154,16 @@ def judge(case, res):
         if f == f:
             if big <= Fraction(DBL_MAX):
                 tol = big * Fraction(1, 10 ** 9) + Fraction(1, 10 ** 300)
-                if abs(Fraction(f) + m) > tol:
+                if math.isinf(f) or abs(Fraction(f) + m) > tol:
                     bad.append((base + ":not-the-mean", "%s fitness %r, minus the mean of the documented errors is %r"
                                 % (kind, f, -float(min(m, Fraction(DBL_MAX))))))
             else:
                 # some documented error is not representable: very bad but finite
                 mc = min(m, Fraction(DBL_MAX))
-                if math.isinf(f) or Fraction(f) > -mc * (1 - Fraction(1, 10 ** 9)):
+                # (-inf is an acceptable rendering of a mean that is not representable)
+                if not math.isinf(f) and Fraction(f) > -mc * (1 - Fraction(1, 10 ** 9)):
                     bad.append((base + ":overflowing-error", "%s fitness %r with an astronomically large error "
-                                "(mean %.3e): must be finite and at least that bad" % (kind, f, float(min(m, Fraction(10) ** 400)))))
+                                "(mean about 10^%d): must be at least that bad" % (kind, f, len(str(int(m))) - 1)))
             if all(e == 0 for e in ex) and f != 0:
                 bad.append((base + ":zero-iff", "%s: every target reproduced but fitness %r" % (kind, f)))
             if wrong and f == 0:
@@ -432,6 +433,18 @@ def nontrivial(c, res):
     return any(wrong) and not all(wrong)
 
 
+def run_harness(lines):
+    """run h_eval; the build cache is shared with the other checks and is
+    garbage collected, so rebuild when the executable has disappeared"""
+    for attempt in range(3):
+        exe = vv.build_harness("h_eval")
+        try:
+            return pc.run_harness_resilient(exe, lines)
+        except FileNotFoundError:
+            continue
+    raise vv.BuildError("h_eval keeps disappearing from the build cache")
+
+
 def shrink(case, harness, still_bad_key):
     """greedy removal of rows while the oracle keeps failing with the same key"""
     if "rows" not in case:
@@ -445,7 +458,7 @@ def shrink(case, harness, still_bad_key):
             cand = dict(cur)
             cand["rows"] = cur["rows"][:i] + cur["rows"][i + 1:]
             budget -= 1
-            hout, _ = pc.run_harness_resilient(harness, [harness_line(cand)])
+            hout, _ = run_harness([harness_line(cand)])
             res = parse_harness(hout[0])
             if res is not None and any(k == still_bad_key for k, _ in judge(cand, res)):
                 cur = cand
@@ -507,7 +520,7 @@ def run(ck):
             perm_groups.append(grp)
 
     hlines = [harness_line(c) for c in cases]
-    hout, crashes = pc.run_harness_resilient(harness, hlines)
+    hout, crashes = run_harness(hlines)
     parsed = [parse_harness(h) for h in hout]
     vv.log("C05 harness ran %d cases at %.1fs" % (len(cases), time.time() - ck.t0))
     mlines, midx = [], []
@@ -522,6 +535,7 @@ def run(ck):
     vv.log("C05 model ran at %.1fs" % (time.time() - ck.t0))
 
     hist = {}
+    shrunk_keys = set()
     for k, c in enumerate(cases):
         ck.count()
         hist[c["kind"]] = hist.get(c["kind"], 0) + 1
@@ -545,8 +559,11 @@ def run(ck):
             ck.sample({"case": harness_line(c)[:300], "impl": ho[:300], "model": mo[:300]})
         verdict = judge(c, r)
         for key, what in verdict:
+            if key in shrunk_keys:        # one minimised replay per failing shape is enough
+                continue
+            shrunk_keys.add(key)
             small = shrink(c, harness, key) if not ck.replay_path else c
-            so, _ = pc.run_harness_resilient(harness, [harness_line(small)])
+            so, _ = run_harness([harness_line(small)])
             ck.add_violation(key, what, {"case": small, "impl": so[0], "model_on_original_case": mo[:400], "original_case_rows": len(c.get("rows", [])),
                                          "harness_line": harness_line(small)})
         if mo.strip() != impl_canon.strip():
